@@ -26,9 +26,14 @@ package fiber
 //@   defines result == reqHeader(c, key, epoch)
 //@   ensures [C06] immutable-stable: c.app.config.Immutable && copies(c.app.getString) ==> stable(result) || (len(defaultValue) > 0 && result == defaultValue[0])
 
-//@ func parseAddr assumed pure
+// parseAddr (checked against its body; `defines` only names the result): host = raw up to a ':' (the last one, by
+// strings.LastIndex), port = the rest; no ':' => host = raw.
+//@ func parseAddr
+//@   props C10 C06
+//@   pure
 //@   defines result0 == parseAddrHost(raw)
 //@   ensures [C06] host-is-prefix-of-raw: len(result0) <= len(raw) && result0 == raw[:len(result0)]
+//@   ensures [C10] split-at-a-colon: (result0 == raw && result1 == "") || (len(result0) < len(raw) && raw[len(result0):len(result0)+1] == ":" && result1 == raw[len(result0)+1:])
 
 //@ func (*DefaultCtx).IsProxyTrusted
 //@   props C10
@@ -42,6 +47,15 @@ package fiber
 //@ ..   (c.app.config.TrustProxyConfig.LinkLocal && ipIsLinkLocal(remoteIP(c.fasthttp, epoch))) ||
 //@ ..   indom(c.app.config.TrustProxyConfig.ips, ipString(remoteIP(c.fasthttp, epoch))) ||
 //@ ..   exists(k, 0, len(c.app.config.TrustProxyConfig.ranges), ipnetContains(c.app.config.TrustProxyConfig.ranges[k], remoteIP(c.fasthttp, epoch), epoch)))
+// The same decision in terms of the public configuration, given the proxy set that New() establishes (proxySetWF,
+// zz_contracts_c10_verif.go: postconditions of New): trusted iff the peer's canonical text is a listed bare address, or a
+// listed CIDR range contains it, or an enabled class does.
+//@   ensures iff-listed-proxies: proxySetWF(c.app.config.TrustProxyConfig) ==> (result <==> (!c.app.config.TrustProxy ||
+//@ ..   (c.app.config.TrustProxyConfig.Loopback && ipIsLoopback(remoteIP(c.fasthttp, epoch))) ||
+//@ ..   (c.app.config.TrustProxyConfig.Private && ipIsPrivate(remoteIP(c.fasthttp, epoch))) ||
+//@ ..   (c.app.config.TrustProxyConfig.LinkLocal && ipIsLinkLocal(remoteIP(c.fasthttp, epoch))) ||
+//@ ..   exists(i, 0, len(c.app.config.TrustProxyConfig.Proxies), listedAddr(c.app.config.TrustProxyConfig.Proxies[i]) && c.app.config.TrustProxyConfig.Proxies[i] == ipString(remoteIP(c.fasthttp, epoch))) ||
+//@ ..   exists(i, 0, len(c.app.config.TrustProxyConfig.Proxies), listedCIDR(c.app.config.TrustProxyConfig.Proxies[i]) && ipnetContains(cidrNet(c.app.config.TrustProxyConfig.Proxies[i]), remoteIP(c.fasthttp, epoch), epoch))))
 
 //@ func (*DefaultCtx).Scheme
 //@   props C10
@@ -53,23 +67,39 @@ package fiber
 
 //@ func (*DefaultCtx).Secure
 //@   props C10
+//@   pure
 //@   ensures iff-scheme-https: result <==> scheme(c, epoch) == "https"
+//@   ensures untrusted-iff-tls: !trusted(c, epoch) ==> (result <==> isTLS(c.fasthttp, epoch))
+//@   ensures tls-secure: isTLS(c.fasthttp, epoch) ==> result
 
 //@ func (*DefaultCtx).Host
 //@   props C10
 //@   pure
 //@   defines result == host(c, epoch)
 //@   ensures untrusted-uri-host: !trusted(c, epoch) ==> result == uriHost(reqURI(c.fasthttp.Request, epoch), epoch)
+// trusted side: the first list item of X-Forwarded-Host when that header has a value, the Host of the request otherwise
+//@   ensures trusted-forwarded-host: trusted(c, epoch) && len(reqHeader(c, HeaderXForwardedHost, epoch)) > 0 ==> firstListItem(result, reqHeader(c, HeaderXForwardedHost, epoch))
+//@   ensures trusted-without-forwarded-host: len(reqHeader(c, HeaderXForwardedHost, epoch)) == 0 ==> result == uriHost(reqURI(c.fasthttp.Request, epoch), epoch)
 //@   ensures [C06] immutable-stable: c.app.config.Immutable && copies(c.app.getString) ==> stable(result)
 
 //@ func (*DefaultCtx).Hostname
 //@   props C10
+//@   pure
 //@   ensures from-host: result == parseAddrHost(host(c, epoch))
+//@   ensures untrusted-uri-hostname: !trusted(c, epoch) ==> result == parseAddrHost(uriHost(reqURI(c.fasthttp.Request, epoch), epoch))
 //@   ensures [C06] immutable-stable: c.app.config.Immutable && copies(c.app.getString) ==> stable(result)
 
 //@ func (*DefaultCtx).IP
 //@   props C10
+//@   pure
 //@   ensures untrusted-remote-ip: !trusted(c, epoch) || len(c.app.config.ProxyHeader) == 0 ==> result == ipString(remoteIP(c.fasthttp, epoch))
+// with IP validation the answer is a syntactically valid address (or the peer address as net.IP prints it)
+//@   ensures valid-ip: c.app.config.EnableIPValidation ==> isIPv4(result) || isIPv6(result) || result == ipString(remoteIP(c.fasthttp, epoch))
+// trusted side with validation: a validated part of the configured header's value, or the peer address
+//@   ensures trusted-validated-part-of-header: c.app.config.EnableIPValidation ==> result == ipString(remoteIP(c.fasthttp, epoch)) ||
+//@ ..   ((isIPv4(result) || isIPv6(result)) && partOf(result, reqHeader(c, c.app.config.ProxyHeader, epoch)))
+// trusted side without validation: the value of the configured header as it is
+//@   ensures trusted-header-value: trusted(c, epoch) && len(c.app.config.ProxyHeader) > 0 && !c.app.config.EnableIPValidation ==> result == reqHeader(c, c.app.config.ProxyHeader, epoch)
 //@   ensures [C06] immutable-stable: c.app.config.Immutable && copies(c.app.getString) ==> stable(result)
 
 //@ func (*DefaultCtx).extractIPFromHeader
@@ -80,6 +110,11 @@ package fiber
 //@   loop 3
 //@     invariant i-le-j: i <= j
 //@   ensures valid-ip: c.app.config.EnableIPValidation ==> isIPv4(result) || isIPv6(result) || result == ipString(remoteIP(c.fasthttp, epoch))
+// with validation, trusted side: a validated part of the header's value, or the peer address when none validates
+//@   ensures validated-part-of-header: c.app.config.EnableIPValidation ==> result == ipString(remoteIP(c.fasthttp, epoch)) ||
+//@ ..   ((isIPv4(result) || isIPv6(result)) && partOf(result, reqHeader(c, header, epoch)))
+// without validation: the value of the CONFIGURED proxy header as it is (the parameter is not looked at on this path)
+//@   ensures no-validation-header-value: !c.app.config.EnableIPValidation ==> result == reqHeader(c, c.app.config.ProxyHeader, epoch)
 //@   ensures [C06] immutable-stable: c.app.config.Immutable && copies(c.app.getString) ==> stable(result)
 
 //@ func (*DefaultCtx).BaseURL
@@ -88,6 +123,11 @@ package fiber
 //@   modifies c.baseURI
 //@   ensures scheme-host: result == scheme(c, epoch) + "://" + host(c, epoch)
 //@   ensures cache-wf: c.baseURI == scheme(c, epoch) + "://" + host(c, epoch)
+// Untrusted peer: computed from the connection and the Host header only. On the cached path the function does not
+// look at the request at all: it returns what the first call of this request stored (Reset clears the cache for every
+// request - clause fresh-for-this-request of Reset, C05 - and nothing else writes c.baseURI).
+//@   ensures untrusted-connection-and-host-header: !trusted(c, epoch) && old(c.baseURI) == "" ==> result == ite(isTLS(c.fasthttp, epoch), "https", "http") + "://" + uriHost(reqURI(c.fasthttp.Request, epoch), epoch)
+//@   ensures cached-value-returned: old(c.baseURI) != "" ==> result == old(c.baseURI) && c.baseURI == old(c.baseURI)
 
 // New() feeds every configured proxy entry to handleTrustedProxy: a bare address becomes a member of
 // the address set (only), a CIDR entry becomes one more range (only).
@@ -103,6 +143,7 @@ package fiber
 //@ ..   app.config.TrustProxyConfig.ranges[old(len(app.config.TrustProxyConfig.ranges))] == cidrNet(ipAddress)
 //@   ensures ranges-kept: forall(k, 0, old(len(app.config.TrustProxyConfig.ranges)), app.config.TrustProxyConfig.ranges[k] == old(app.config.TrustProxyConfig.ranges[k]))
 //@   ensures bad-range-adds-nothing: strContains(ipAddress, "/") && !cidrOK(ipAddress) ==> app.config.TrustProxyConfig.ranges == old(app.config.TrustProxyConfig.ranges)
+//@   ensures range-adds-no-address: strContains(ipAddress, "/") ==> (indom(app.config.TrustProxyConfig.ips, ipAddress) <==> old(indom(app.config.TrustProxyConfig.ips, ipAddress)))
 
 // ---------------------------------------------------------------------------------------------
 // C02: a handler only runs on paths its pattern describes; constraints are enforced
